@@ -104,12 +104,23 @@ class BitInterp:
         self.extent = norm(loop.iter.args[0])
         self.env_poly: dict[str, Poly] = {}
         self.consts: dict[str, int] = {}
+        self.env_bits: dict[str, list] = {}
         self._block(loop.body)
 
     def _block(self, stmts) -> None:
         for st in stmts:
             if isinstance(st, ast.Assign) and len(st.targets) == 1 and isinstance(st.targets[0], ast.Name):
-                self.env_poly[st.targets[0].id] = self._poly(st.value)
+                # a local is either index arithmetic (kept as a polynomial) or a partial bit field (kept as a bit vector)
+                name = st.targets[0].id
+                try:
+                    bits = self._eval(st.value)
+                except Unknown:
+                    bits = None
+                self.env_poly[name] = self._poly(st.value)
+                if bits is not None:
+                    self.env_bits[name] = bits
+                else:
+                    self.env_bits.pop(name, None)
             elif isinstance(st, ast.Assign) and len(st.targets) == 1 and isinstance(st.targets[0], ast.Subscript):
                 self._store(st.targets[0], st.value, st)
             elif isinstance(st, ast.AugAssign):
@@ -165,6 +176,8 @@ class BitInterp:
             return const_bits(e.value)
         if isinstance(e, ast.Name) and e.id in self.consts:
             return const_bits(self.consts[e.id])
+        if isinstance(e, ast.Name) and e.id in self.env_bits:
+            return self.env_bits[e.id]
         if isinstance(e, ast.Subscript):
             if dotted(e.value) != self.in_name:
                 raise Unknown(f"reads {norm(e.value)}, not the input buffer")
